@@ -30,12 +30,12 @@ def run(prog, chk):
         "insert markers are only honoured in top-level feature blocks, first marker per tag (R17.6)",
     ]
     chk.not_decided += ["index arithmetic of marker placement", "GSUB byte identity", "feaLib's asFea() round trip"]
-    r171(prog, chk)
-    r172(prog, chk)
-    r173(prog, chk)
-    r174(prog, chk)
-    r175(prog, chk)
-    r176(prog, chk)
+    chk.guard(r171, prog, chk)
+    chk.guard(r172, prog, chk)
+    chk.guard(r173, prog, chk)
+    chk.guard(r174, prog, chk)
+    chk.guard(r175, prog, chk)
+    chk.guard(r176, prog, chk)
 
 
 # ----------------------------------------------------------------------------- R17.1
